@@ -1156,28 +1156,118 @@ Proof.
   unfold reset_shape. cbn. repeat split; auto. discriminate.
 Qed.
 
+Lemma ds_transmit_idle : forall salt s c p, s_ds s = 6 -> s_lost s = [] -> s_toff s = 0 -> s_total s = 0 ->
+  ds_transmit salt s c p = (true, s, c, p).
+Proof.
+  intros salt s c p E1 E2 E3 E4. destruct s as [k0 sid ss obs total head pend lost infl toff ds finpn fc rst rf rc mb]. cbn in E1, E2, E3, E4. subst.
+  unfold ds_transmit, ds_transmit_impl. cbn [s_lost s_toff s_total s_ds s_fc].
+  destruct (can_retransmit (p_c p)); cbn [tx_set set_lost s_lost s_toff s_total s_ds s_fc];
+    change (0 <? 0) with false; rewrite !andb_false_r; cbn [negb s_ds];
+    change (6 =? 3) with false; change (6 =? 1) with false; cbn [andb orb]; reflexivity.
+Qed.
+
 Theorem quiet_after_reset : forall salt s c p r s' c' p',
   reset_shape s -> ss_transmit salt s c p = (r, s', c', p') ->
   (p_out p' = p_out p \/
    p_out p' = p_out p ++ [mk_frame 2 (s_sid s) (s_rst_final s) (s_rst_code s) false []]) /\ reset_shape s'.
 Proof.
   intros salt s c p r s' c' p' (H1 & H2 & H3 & H4 & H5 & H6) H. unfold ss_transmit in H.
-  assert (Hds : forall s0 p0, s_ds s0 = 6 -> s_lost s0 = [] -> s_toff s0 = 0 -> s_total s0 = 0 ->
-            ds_transmit salt s0 c p0 = (true, s0, c, p0)).
-  { intros s0 p0 E1 E2 E3 E4. unfold ds_transmit, ds_transmit_impl. rewrite E2, E3, E4, E1.
-    destruct (can_retransmit (p_c p0)); cbn [tx_set];
-      replace (set_lost s0 []) with s0 by (destruct s0; cbn in *; subst; reflexivity);
-      rewrite E3, E4, E1; change (0 <? 0) with false; rewrite !andb_false_r;
-      change (6 =? 3) with false; change (6 =? 1) with false; cbn [andb orb negb];
-      rewrite N.ltb_irrefl, orb_false_r; reflexivity. }
   destruct (dlv_try (s_rst s) (p_c p)).
   - destruct (p_rem p <? _).
     + injection H as <- <- <- <-. split; [left; reflexivity|]. repeat split; auto.
-    + cbn [negb] in H. rewrite Hds in H by (cbn; assumption). cbn [negb] in H.
+    + cbn [negb] in H. rewrite ds_transmit_idle in H by (cbn; assumption). cbn [negb] in H.
       cbn [set_rst s_fc] in H. rewrite H6 in H. cbn [dlv_try] in H.
       destruct (p_elicit _ && _)%bool; injection H as <- <- <- <-;
-        (split; [right; reflexivity|]); unfold reset_shape; cbn; repeat split; auto.
-  - cbn [negb] in H. rewrite Hds in H by assumption. cbn [negb] in H. rewrite H6 in H. cbn [dlv_try] in H.
+        (split; [right; reflexivity|]); unfold reset_shape; cbn; repeat split; auto; try (rewrite H6; reflexivity).
+  - cbn [negb] in H. rewrite ds_transmit_idle in H by assumption. cbn [negb] in H. rewrite H6 in H. cbn [dlv_try] in H.
     destruct (p_elicit _ && _)%bool; injection H as <- <- <- <-;
-      (split; [left; reflexivity|]); unfold reset_shape; cbn; repeat split; auto.
+      (split; [left; reflexivity|]); unfold reset_shape; cbn; repeat split; auto; try (rewrite H6; reflexivity).
+Qed.
+
+(* ---------------------------------------------------------------------------------------------- *)
+(* C03: the credit invariant holds in every reachable state of the driver                           *)
+
+Fixpoint exec (fuel : nat) (salt n : N) (k : conn) (ops : list Z) : conn :=
+  match fuel with
+  | O => k
+  | S fuel =>
+      match ops with
+      | [] => k
+      | op :: r =>
+          match step salt n k op r with
+          | None => k
+          | Some (_, k', r') => exec fuel salt n k' r'
+          end
+      end
+  end.
+
+Lemma INV03_step : forall salt n k m op r out k' r', 0 < n -> INV03 n k m ->
+  step salt n k op r = Some (out, k', r') -> exists m', INV03 n k' m'.
+Proof.
+  intros salt n k m op r out k' r' Hn HI H.
+  assert (Hmod : forall x, x mod n < n) by (intros; apply N.mod_lt; lia).
+  destruct (op_cases op) as [E|[E|[E|[E|[E|[E|[E|[E|[E|[E1 E2]]]]]]]]]]; try subst op.
+  - unfold step in H. destruct (nx r) as [a r1]. destruct (nx r1) as [b r2].
+    destruct (ss_push (get_stream k (zN a mod n)) (zN b mod 4096)) as [res s'] eqn:Ep. injection H as _ <- _.
+    replace s' with (snd (ss_push (get_stream k (zN a mod n)) (zN b mod 4096))) by (rewrite Ep; reflexivity).
+    rewrite (with_stream_const k _ (fun s => snd (ss_push s (zN b mod 4096)))).
+    exists (with_ms m (zN a mod n) (fun x => x)). apply INV03_upd; auto using keeps_push.
+  - unfold step in H. destruct (nx r) as [a r1].
+    destruct (ss_finish (get_stream k (zN a mod n))) as [res s'] eqn:Ep. injection H as _ <- _.
+    replace s' with (snd (ss_finish (get_stream k (zN a mod n)))) by (rewrite Ep; reflexivity).
+    rewrite (with_stream_const k _ (fun s => snd (ss_finish s))).
+    exists (with_ms m (zN a mod n) (fun x => x)). apply INV03_upd; auto using keeps_finish.
+  - unfold step in H. destruct (nx r) as [a r1]. destruct (nx r1) as [b r2]. injection H as _ <- _.
+    exists (with_ms m (zN a mod n) (fun x => x)). apply INV03_upd; auto using keeps_reset.
+  - unfold step in H. destruct (nx r) as [a r1]. destruct (nx r1) as [b r2]. injection H as _ <- _.
+    exists (with_ms m (zN a mod n) (fun x => x)). apply INV03_upd; auto using keeps_reset.
+  - unfold step in H. destruct (nx r) as [a r1]. destruct (nx r1) as [b r2]. destruct (nx r2) as [c r3]. destruct (nx r3) as [d r4].
+    destruct (conn_transmit salt k (zN a mod (n + 1)) (zN b mod 65536) (zN c mod 4) (zN d mod 4)) as [k1 fs] eqn:Et.
+    injection H as _ <- _.
+    assert (Hcap : zN b mod 65536 < 65536) by (apply N.mod_lt; lia).
+    destruct (conn_transmit_ok salt n _ _ _ _ _ _ _ _ HI Hcap Et) as [m' [_ HI']]. eauto.
+  - unfold step in H. destruct (nx r) as [a r1]. destruct (nx r1) as [b r2]. injection H as _ <- _.
+    destruct HI as (I1 & I2 & I3 & I4). exists m. unfold INV03, conn_ack. cbn. rewrite map_length.
+    set (lo := zN a mod 65536). set (hi := lo + zN b mod 65536).
+    repeat split; auto.
+    + apply Rall_map; auto; intros s; try (intros ms); apply (keeps_ack lo hi s).
+    + rewrite sum_acq_map; auto. intros s. apply (keeps_ack lo hi s).
+  - unfold step in H. destruct (nx r) as [a r1]. destruct (nx r1) as [b r2]. injection H as _ <- _.
+    destruct HI as (I1 & I2 & I3 & I4). exists m. unfold INV03, conn_loss. cbn. rewrite map_length.
+    set (lo := zN a mod 65536). set (hi := lo + zN b mod 65536).
+    repeat split; auto.
+    + apply Rall_map; auto; intros s; try (intros ms); apply (keeps_loss lo hi s).
+    + rewrite sum_acq_map; auto. intros s. apply (keeps_loss lo hi s).
+  - unfold step in H. destruct (nx r) as [a r1]. destruct (nx r1) as [b r2]. injection H as _ <- _.
+    destruct HI as (I1 & I2 & I3 & I4).
+    exists (with_ms m (zN a mod n) (fun s => mk_ms (m_w s) (m_hi s) (m_fin s) (m_rst s) (N.max (m_lim s) (N.min (zN b) varint_max)))).
+    unfold INV03, with_stream, with_ms. cbn. rewrite upd_nth_length. repeat split; auto.
+    + apply Rall_upd; auto using msd_R03, msd_sid.
+    + rewrite sum_acq_upd; auto using msd_acq.
+  - unfold step in H. destruct (nx r) as [a r1]. injection H as _ <- _.
+    destruct HI as (I1 & I2 & I3 & I4). set (v := N.min (zN a) varint_max).
+    exists (mk_mon (m_streams m) (N.max (m_limd m) v)). unfold INV03, conn_max_data.
+    set (c1 := cfc_max_data (k_flow k) v).
+    assert (Hc1 : c_total c1 = N.max (m_limd m) v /\ sum_acq (k_streams k) + c_avail c1 = c_total c1).
+    { unfold c1, cfc_max_data. destruct (v <=? c_total (k_flow k)) eqn:E; cbn; b2p; lia. }
+    destruct Hc1 as [T1 T2].
+    destruct (c_avail c1 =? 0); [cbn [k_streams k_flow m_streams m_limd]; repeat split; auto|].
+    destruct (offer_window c1 (k_streams k)) as [c2 l2] eqn:Eo.
+    destruct (offer_window_ok _ _ _ _ _ _ I2 Eo) as (J1 & J2 & J3 & J4).
+    cbn [k_streams k_flow m_streams m_limd]. repeat split; auto; lia.
+  - rewrite E1 in H. discriminate.
+Qed.
+
+(* conn_credit_exact over all histories: in every state the driver can reach, the credit held by the
+   streams plus the credit still available equals the total the peer granted *)
+Theorem credit_exact_reachable : forall fuel salt n k ops, 0 < n ->
+  (exists m, INV03 n k m) ->
+  let k' := exec fuel salt n k ops in
+  sum_acq (k_streams k') + c_avail (k_flow k') = c_total (k_flow k').
+Proof.
+  induction fuel as [|fuel IH]; intros salt n k ops Hn [m HI]; cbn [exec].
+  - destruct HI as (_ & _ & H & _). exact H.
+  - destruct ops as [|op r]; [destruct HI as (_ & _ & H & _); exact H|].
+    destruct (step salt n k op r) as [[[out k1] r1]|] eqn:Es; [|destruct HI as (_ & _ & H & _); exact H].
+    apply IH; auto. eapply INV03_step; eauto.
 Qed.
